@@ -20,20 +20,33 @@ Oracle (independent of the model) on the real outputs:
   persist  = unmarshal(marshal(info, plan)) == (info, plan);
   todo     = rebase_todo lists exactly the entries whose new id is absent.
 
-Known finding kept as a violation with a family (DESIGN §7-F12): with
-skip_full_merged=True a child of a skipped merge gets the OLD merge revision as
-new parent.  Classifier: skip is on, the offending parent is a present revision
-of the todo set that has >= 2 parents and no entry in the plan.
+History: DESIGN §7-F12 (with skip_full_merged=True a child of a skipped merge got
+the OLD merge revision as new parent) was found by this check and fixed in /repo
+(eb8d299).  Nothing is suppressed: if it returns, the closure oracle reports it
+as a plain violation.
 
-Mutants tried (scratch worktree), see the report in the final message.
+Mutants tried (scratch worktree, VERIF_REPO):
+  M1  left parent test `heads((p0, onto)) == {onto}` -> `p0 == onto`            -> oracle (closure)
+  M3  additional parent already merged into onto not dropped                    -> oracle (closure)
+  M4  todo slice `index(stop) + 1` -> `index(stop)` (tip not rewritten)          -> oracle (domain)
+  M11 skip every merge instead of only fully merged ones                        -> oracle (domain: left out although two parents survive)
+  R1  the F12 fix reverted (no `skipped` stand-in table)                         -> oracle (closure: child of a skipped merge planned onto the old merge)
+  M5  marshall: parents joined without the leading space                        -> oracle (persist)
+  M6  unmarshall: `split(b" ", 1)` -> `split(b" ")` (needs a revid with a space) -> oracle (persist)
+  M8  rebase_todo tests the first new parent instead of the new revid            -> oracle (todo)
+  M9  transpose: `if c in renames: continue` dropped (needs a renamed child of a renamed revision) -> oracle
+  M10 transpose: children not queued (`not in processed` inverted)               -> oracle (descendants)
+  M2  `parents[0] = newparent` replacement dropped (redundant `onto` parent kept) -> T2 only
+  M12 heads() of the additional parents ignored (redundant/ghost parent kept)    -> T2 only
+  H1  harmless: loop rewritten with indices / dict.get                           -> clean
 """
 import itertools
 
 from vlib import env
 
 THEOREMS = [
-    "anc_spec", "plan_domain", "plan_domain_todo", "plan_parents_closed_partial", "plan_new_ids",
-    "plan_skip_witness", "plan_skip_domain", "marshal_roundtrip", "todo_is_unrewritten",
+    "anc_spec", "plan_domain", "plan_domain_todo", "plan_parents_closed", "plan_new_ids",
+    "plan_skip_fixed", "plan_skip_domain", "marshal_roundtrip", "todo_is_unrewritten",
     "transpose_excludes_renames_partial",
 ]
 RULE = ("case = (graph with ghosts, stop, onto, start, skip) / (plan text) / (ancestry, renames); "
@@ -50,7 +63,6 @@ TRUSTED = [
 
 NULL = b"null:"
 OFF = 1000
-F12 = "skip-full-merged-child-of-skipped-merge"
 
 
 def kid(n):
@@ -197,10 +209,36 @@ def run_simple(g, todo_set, start, stop, onto, skip):
         rebase.topo_sort = orig
 
 
-def classify_f12(g, todo_set, plan, skip, p):
-    if skip and p in todo_set and p in g and len(g[p]) >= 2 and p not in plan:
-        return F12
-    return None
+def surviving_parents(g, onto, order, plan):
+    """For every revision of `order` (topological) the set of distinct parents
+    that survive the rebase, computed from the old graph and from which
+    revisions the plan rewrites: a parent merged into `onto` counts as the new
+    base, a rewritten parent as itself, a left-out merge as whatever it
+    collapsed to, anything else (a ghost) as an old parent that is kept.
+    Additional parents that are ancestors of other additional parents do not
+    count.  A merge may only be left out if at most one non-base parent
+    survives and no old parent is kept."""
+    aonto = ancestors(g, onto)
+    rep = {}
+    out = {}
+    for k in order:
+        left, addl = g[k][0], g[k][1:]
+        cands = [left] + [q for q in addl if not any(q != r and q in ancestors(g, r) for r in addl)]
+        reps = set()
+        for q in cands:
+            if q == NULL or q in aonto:
+                reps.add("BASE")
+            elif q in plan:
+                reps.add(("new", q))
+            elif q in rep:
+                reps.add(rep[q])
+            else:
+                reps.add(("old", q))
+        out[k] = reps
+        if k not in plan:
+            nb = reps - {"BASE"}
+            rep[k] = next(iter(nb)) if len(nb) == 1 else "BASE"
+    return out
 
 
 def oracle_simple(ctx, case, g, todo_set, start, stop, onto, skip, plan, order, tip0=None):
@@ -221,6 +259,9 @@ def oracle_simple(ctx, case, g, todo_set, start, stop, onto, skip, plan, order, 
     news = [v[0] for v in plan.values()]
     if len(set(news)) != len(news) or set(news) & set(plan) or set(news) & set(g):
         ctx.violation(case, "new revision ids are not fresh/distinct: %s" % splan(plan))
+    for old, (new, parents) in plan.items():
+        if len(set(parents)) != len(parents) or not parents or new in parents or old in parents:
+            ctx.violation(case, "entry %s -> %s has malformed parents %s" % (slist([old]), slist([new]), slist(parents)))
     if command_like:
         # domain
         want = (ancestors(g, tip) - ancestors(g, onto)) & set(g) if tip is not None else set()
@@ -231,9 +272,11 @@ def oracle_simple(ctx, case, g, todo_set, start, stop, onto, skip, plan, order, 
                 ctx.violation(case, "plan rewrites %s, the branch's own revisions are %s" % (sset(have), sset(want)))
         else:
             extra = have - want
-            notmerge = [k for k in want - have if len(g[k]) < 2]
-            if extra or notmerge:
-                ctx.violation(case, "skip plan rewrites %s; own revisions %s; left out non-merges %s" % (sset(have), sset(want), sset(notmerge)))
+            surv = surviving_parents(g, onto, order, plan)
+            bad = [k for k in want - have
+                   if len(g[k]) < 2 or len(surv[k] - {"BASE"}) > 1 or any(r != "BASE" and r[0] == "old" for r in surv[k])]
+            if extra or bad:
+                ctx.violation(case, "skip plan rewrites %s; own revisions %s; left out although not a merge of already merged revisions: %s" % (sset(have), sset(want), sset(bad)))
         # closure / order
         earlier = set()
         for old, (new, parents) in plan.items():
@@ -241,7 +284,7 @@ def oracle_simple(ctx, case, g, todo_set, start, stop, onto, skip, plan, order, 
                 if p == onto or p in earlier or p not in g:
                     continue
                 ctx.violation(case, "entry %s -> %s has new parent %s: not the new base %s, not the new id of an earlier entry, not a ghost (plan %s)" % (
-                    slist([old]), slist([new]), slist([p]), slist([onto]), splan(plan)), family=classify_f12(g, todo_set, plan, skip, p))
+                    slist([old]), slist([new]), slist([p]), slist([onto]), splan(plan)))
             earlier.add(new)
     else:
         have = list(plan)
@@ -258,7 +301,7 @@ def simple_cases(ctx, b, g, ghosts, n):
     graph = Graph(DictParentsProvider(g))
     nodes = [kid(i) for i in range(1, n + 1)]
     for _ in range(3):
-        tip = rng.choice(nodes)
+        tip = kid(max(rng.randint(1, n), rng.randint(1, n)))
         onto = rng.choice(nodes + (ghosts if rng.random() < 0.05 else []))
         if rng.random() < 0.85:
             # the command's situation: something to rebase
@@ -447,6 +490,8 @@ def transpose_cases(ctx, b, g, ghosts, n):
     ctx.case(case, nontrivial=plan is None or len(plan) >= 1)
     ctx.count("transpose:" + (out if plan is None else "ok"))
     if plan is None:
+        if all(v in g for v in renames.values()):
+            ctx.violation(case, "generate_transpose_plan fails with %s although every replacement revision is known" % out)
         return
     if set(plan) & set(renames):
         ctx.violation(case, "transpose plan contains renamed revisions %s" % sset(set(plan) & set(renames)))
@@ -469,7 +514,7 @@ def transpose_cases(ctx, b, g, ghosts, n):
 def run(ctx, scale=1):
     rng = ctx.rng
     b = Batch(ctx)
-    ngraphs = ctx.pick(700, 6000) * scale
+    ngraphs = ctx.pick(2500, 25000) * scale
     nmax = ctx.pick(12, 15)
     for gi in range(ngraphs):
         n = rng.randint(2, nmax) if rng.random() < 0.9 else rng.randint(1, 4)
@@ -479,7 +524,7 @@ def run(ctx, scale=1):
             transpose_cases(ctx, b, dict(g), ghosts, n)
         if len(b.lines) > 4000:
             b.flush()
-    text_cases(ctx, b, ctx.pick(600, 5000) * scale)
+    text_cases(ctx, b, ctx.pick(1500, 15000) * scale)
     b.flush()
     state_cases(ctx, ctx.pick(10, 60))
     ctx.extra["domain"] = dict(max_keys=nmax, ghosts="0..2", graphs=ngraphs)
